@@ -108,6 +108,7 @@ static const char *mem_take(void) { if (!membuf) { memcap = 4096; membuf = mallo
 static void *rec_new(const char *k, void *p, size_t n, size_t sz)
 {
 	if (!p) drv_fail("RUNTIME out of memory");
+	if (n * sz > (1UL << 27)) drv_fail("RUNTIME allocation of %zu bytes: table grows beyond what this driver executes", n * sz);
 	if (na == MAXA) drv_fail("RUNTIME allocation table overflow");
 	A[na].p = p; A[na].n = n; A[na].sz = sz; A[na].id = next_id++; A[na].live = 1; na++;
 	mem_ev(k, A[na - 1].id, n, sz, 0);
@@ -139,6 +140,7 @@ void *rec_mmap(void *addr, size_t len, int prot, int flags, int fd, off_t off)
 	} else {
 		if (!map_base || (char *) addr < map_base || (char *) addr + len > map_base + map_len)
 			drv_fail("ORACLE mmap(MAP_FIXED) outside the reserved range");
+		if ((prot & PROT_WRITE) && len > (1UL << 27)) drv_fail("RUNTIME populate of %zu bytes: table grows beyond what this driver executes", len);
 		mem_ev((prot & PROT_WRITE) ? "pop" : "dis", -2, len / NODESZ, 0, ((char *) addr - map_base) / NODESZ);
 	}
 	return r;
@@ -232,6 +234,16 @@ static void emit(const char *op, long n, long k, long s, long r, long c, long ab
 		op, n, k, s, r, with_iter ? name_of(it.node) : 0, with_iter ? name_of(it.next) : 0, c, ab, aa, in_node, in_next, mem_take());
 }
 static void need_ht(const char *line) { if (!ht) drv_fail("PROGRAM operation without a table: %s", line); }
+/* A precondition of the generated program does not hold on the real table (possible only after the table already
+ * deviated from the specification): record it and void the rest of the run; the log is rejected at the latest here. */
+static int void_run;
+static int precond(int ok, const char *what)
+{
+	if (ok) return 1;
+	fprintf(logf, "{\"op\":\"precond\",\"what\":\"%s\"}\n", what);
+	void_run = 1;
+	return 0;
+}
 static struct cds_lfht_node *node_arg(long n, const char *line) { if (n < 1 || n > MAXN) drv_fail("PROGRAM bad node: %s", line); return &N[n].node; }
 
 int main(int argc, char **argv)
@@ -245,7 +257,7 @@ int main(int argc, char **argv)
 	while (fgets(line, sizeof line, pf)) {
 		char a[16]; long x = 0, y = 0; long in_node = 0, in_next = 0;
 		if (line[0] == '#' || line[0] == '\n') continue;
-		if (!ht && line[0] != 'R' && line[0] != 'K') continue;	/* creation was refused (or table destroyed): rest of the run is void */
+		if ((!ht || void_run) && line[0] != 'R' && line[0] != 'K') continue;	/* creation was refused (or table destroyed): rest of the run is void */
 		if (it_valid) { in_node = name_of(it.node); in_next = name_of(it.next); }
 		switch (line[0]) {
 		case 'K': {
@@ -258,6 +270,7 @@ int main(int argc, char **argv)
 		case 'R': {
 			unsigned long init, mn, mx; int flags; const struct cds_lfht_mm_type *mm = NULL;
 			if (ht) { if (rcu_nest) fl_read_unlock(); ht = NULL; }
+			void_run = 0;
 			drop_all_memory();
 			if (sscanf(line, "R %ld %lu %lu %lu %d %15s", &cur_run, &init, &mn, &mx, &flags, a) != 6) drv_fail("PROGRAM bad R line: %s", line);
 			if (!strcmp(a, "order")) mm = &cds_lfht_mm_order; else if (!strcmp(a, "chunk")) mm = &cds_lfht_mm_chunk;
@@ -286,7 +299,7 @@ int main(int argc, char **argv)
 			if (line[0] == 'a') { cds_lfht_node_init(n); cds_lfht_add(ht, HK[y], n); r = 0; emit("add", x, y, 0, r, 0, 0, 0, 0, 0, 0); }
 			else if (line[0] == 'u') { cds_lfht_node_init(n); ret = cds_lfht_add_unique(ht, HK[y], match, &key, n); emit("addu", x, y, 0, name_of(ret), 0, 0, 0, 0, 0, 0); }
 			else if (line[0] == 'p') { cds_lfht_node_init(n); ret = cds_lfht_add_replace(ht, HK[y], match, &key, n); emit("addr", x, y, 0, name_of(ret), 0, 0, 0, 0, 0, 0); }
-			else { if (!it_valid) drv_fail("PROGRAM replace without iterator"); r = cds_lfht_replace(ht, &it, HK[y], match, &key, n); emit("repl", x, y, 0, r, 0, 0, 0, in_node, in_next, 0); }
+			else { if (!precond(it_valid, "replace without iterator")) break; r = cds_lfht_replace(ht, &it, HK[y], match, &key, n); emit("repl", x, y, 0, r, 0, 0, 0, in_node, in_next, 0); }
 			fputs("}\n", logf);
 			break; }
 		case 'd': case 'x': case 'q': {
@@ -299,7 +312,7 @@ int main(int argc, char **argv)
 			fputs("}\n", logf);
 			break; }
 		case 'D':
-			need_ht(line); if (!it_valid) drv_fail("PROGRAM del(iter) without iterator");
+			need_ht(line); if (!precond(it_valid, "del(iter) without iterator")) break;
 			emit("deli", 0, 0, 0, cds_lfht_del(ht, cds_lfht_iter_get_node(&it)), 0, 0, 0, in_node, in_next, 0); fputs("}\n", logf);
 			break;
 		case 'l': {
@@ -312,7 +325,7 @@ int main(int argc, char **argv)
 		case 'n': {
 			need_ht(line);
 			if (sscanf(line + 1, "%ld", &x) != 1 || x < 1 || x > nkeys) drv_fail("PROGRAM bad line: %s", line);
-			if (!it_valid || !it.node) drv_fail("PROGRAM next_duplicate without a current node");
+			if (!precond(it_valid && it.node, "next_duplicate without a current node")) break;
 			int key = (int) x;
 			cds_lfht_next_duplicate(ht, match, &key, &it);
 			emit("ndup", 0, x, 0, 0, 0, 0, 0, in_node, in_next, 1); fputs("}\n", logf);
@@ -322,7 +335,7 @@ int main(int argc, char **argv)
 			emit("first", 0, 0, 0, 0, 0, 0, 0, 0, 0, 1); fputs("}\n", logf);
 			break;
 		case 't':
-			need_ht(line); if (!it_valid) drv_fail("PROGRAM next without iterator");
+			need_ht(line); if (!precond(it_valid, "next without iterator")) break;
 			cds_lfht_next(ht, &it);
 			emit("next", 0, 0, 0, 0, 0, 0, 0, in_node, in_next, 1); fputs("}\n", logf);
 			break;
